@@ -27,7 +27,7 @@ ASSUMPTIONS = ['gaussian_noise_scale is judged relative to the harness stand-in 
                'probability comparison rtol max(1e-9, 64*eps_machine*max|score|) on entries above 1e-300',
                'permute_and_flip makes no choice() call and is used by no shipped mechanism: out of scope']
 PLAN = {
-    'quick': dict(cases=600, budget_s=60, case_timeout=60, min_cases=150),
+    'quick': dict(cases=900, budget_s=60, case_timeout=60, min_cases=150),
     'thorough': dict(cases=15000, budget_s=600, case_timeout=60, min_cases=2500),
 }
 
@@ -124,7 +124,7 @@ def run_case(case, ctx):
     # ---- Mechanism.exponential_mechanism: array, list, dict; base measure; shift ----------
     for bounded in (False, True):
         rec = Rec()
-        M = mech_mod.Mechanism(1.0, 1e-6, bounded, prng=rec)
+        M = mech_mod.Mechanism(1.0, 0.0, bounded, prng=rec)   # delta = 0 skips the 0.3 s cdp_rho bisection in the constructor
         coef = eps / (2 * sens)
         blog = None if base is None else np.log(base)
         ref = ref_probs(q, coef, blog, mp)
@@ -263,7 +263,7 @@ def run_case(case, ctx):
     if rec.choices:
         ctx.check(got == workload[int(np.argmax(rec.choices[-1][1]))], 'em_probabilities', 'key_mapping', 'worst_approximated returned %r' % (got,))
     rec = Rec()
-    A = aim.AIM(1.0, 1e-6, prng=None)
+    A = aim.AIM(1.0, 0.0, prng=None)
     A.prng = rec
     wg = {cl: float(gen.pick(rng, [0.5, 1.0, 2.0, 3.0])) for cl in workload}
     sigma = float(rng.rand() * 5 + 0.1)
